@@ -21,13 +21,14 @@ def obligations(tier, kind='inner', mode='rows', prefix='inner'):
     def add(nl, nr, **kw):
         c = {'nl': nl, 'nr': nr, 'kind': kind, 'mode': mode, 'K': 1, 'W': 1, 'ktype': 'int', 'spec': 'name'}
         c.update(kw)
-        tag = ','.join('%s=%s' % (k, c[k]) for k in ('K', 'W', 'Wl', 'Wr', 'ktype', 'ktype2', 'spec', 'nones') if (k in kw))
+        tag = ','.join('%s=%s' % (k, c[k]) for k in ('K', 'W', 'Wl', 'Wr', 'ktype', 'ktype2', 'spec', 'nones', 'expect') if (k in kw))
         hs = c.pop('hashseed', 0)
         name = '%s[%dx%d%s%s]' % (prefix, nl, nr, (',' + tag) if tag else '', (',seed=%d' % hs) if 'seed' in kw or hs else '')
         big = (nl + nr >= 5) or c['K'] >= 2
         obs.append(dict(name=name, fn='h_join', config=c, hashseed=hs, budget=(150 if big else 90) if q else (1200 if big else 400),
                         bounds='%dx%d rows, K=%d key columns (%s), all key equality patterns%s, W=%d symbolic int payload column(s) per side, keys given by %s'
-                        % (nl, nr, c['K'], c['ktype'], ' incl. a None class' if c.get('nones', True) else '', c['W'], c['spec']),
+                        % (nl, nr, c['K'], c['ktype'], ' incl. a None class' if c.get('nones', True) else '', c['W'], c['spec'])
+                        + ((', expect=%s (inputs on which it must raise are skipped here; C11 decides those)' % c['expect']) if 'expect' in c else ''),
                         smoke=joinlib.smoke(nl, nr, c['K'], c['W'])))
     sizes = [(2, 2), (1, 2), (2, 1), (0, 2), (2, 0), (0, 0), (1, 1), (1, 3), (3, 1)]
     for nl, nr in sizes:
@@ -44,8 +45,10 @@ def obligations(tier, kind='inner', mode='rows', prefix='inner'):
     add(2, 2, Wl=2, W=0)
     for kt in ('str', 'bool', 'date', 'hashy'):
         add(2, 2, ktype=kt)
-    for sp in ('col', 'ext'):
+    for sp in ('col', 'ext', 'extnamed'):
         add(2, 2, spec=sp)
+    for e in ('many_to_one', 'one_to_many', 'one_to_one'):
+        add(2, 2, expect=e, W=0)          # an expectation that holds leaves rows and order as they are (repeated keys on the free side)
     add(2, 2, K=2, spec='mixed', nones=False, W=0)
     add(2, 2, K=3, nones=False, W=0, K2const=q)
     add(2, 1, K=3, spec='mixed', W=1, K2const=q)
